@@ -100,8 +100,9 @@ CHECKS = {
             "the table, sampled over the documents): validation errors must raise ParserException in every "
             "format, and whenever any entry point raises the target path must be absent / byte-identical and "
             "the directory listing unchanged; warnings-only documents are written, reported and load back.",
-            "Content-caused faults only (no OS-level I/O errors); duplicate sibling names are no longer "
-            "producible through the API.",
+            "Content-caused faults, plus text the locale encoding cannot hold (the table is also run in a child "
+            "interpreter with an ASCII locale, DESIGN 9.5); no OS-level I/O errors; duplicate sibling names "
+            "are no longer producible through the API.",
             "DESIGN.md section 5, C07"),
     "C12": ("exploration",
             "Hypothesis-generated documents with links/includes added by construction, finalize/clean/save-load "
